@@ -44,6 +44,27 @@ def answer (corpus : Corpus) (global : Oracle) (thr : Nat) (c : Sexp) : String :
                 | some v => toString (tagged "some" [v.toSexp])
                 | none => "none")
            | _ => "bad-case")
+  | .list [.atom "outer", .str name, el, orc] =>
+      (match Driver.FM.oracleOf? orc with
+       | none => "bad-case"
+       | some o =>
+           let env : Env.T := { decls := corpus, oracle := o.merge global, thr := thr }
+           let elem : Option Derive.Elem := match el with
+             | .list [.atom "di", d] => (declOf? d).map (fun x => .deriveInput x.1)
+             | .list [.atom "fld", f] => (fieldOf? f).map .field
+             | .list [.atom "var", v] => (variantOf? v).map (fun x => .variant x.1)
+             | .list [.atom "tp", t] => (typeParamOf? t).map .typeParam
+             | .list (.atom "attrs" :: as) => (as.mapM attrOf?).map .attrs
+             | _ => none
+           match elem with
+           | some el => (Env.outerRun env name el).toAnswer
+           | none => "bad-case")
+  | .list [.atom "fieldsprint", .atom style, .list toks] =>
+      let st : Option Style := match style with
+        | "named" => some .named | "tuple" => some .tuple | "unit" => some .unit | _ => none
+      (match st, toks.mapM (fun | .str s => some s | _ => none) with
+       | some st, some ts => toString (Sexp.str (Derive.printFields st ts))
+       | _, _ => "bad-case")
   | .list [.atom "derive", tr, decl, orc] =>
       (match traitOf? tr, declOf? decl, Driver.FM.oracleOf? orc with
        | some t, some (d, sp), some o => deriveAnswer (o.merge global) thr t d sp
